@@ -108,6 +108,26 @@ Definition wfb : bool :=
       (if avail m s a then neqb (sumf (nS m) (P m s a)) n1
        else forallbn (nS m) (fun ns => neqb (P m s a ns) n0)))).
 
+(* ---- undiscounted case (gamma = 1, rewards <= 0): extra clauses ---- *)
+(* the reported policy, idealised to exactly uniform on its support *)
+Definition upolT (s a : nat) : T :=
+  if masked m s then (if avail m s a then n1 / nofnat (countb (nA m) (avail m s)) else n0)
+  else (if insupp s a then n1 / nofnat (suppcount s) else n0).
+Definition c_nonpos : bool := forallbn (nS m) (fun s => Vz s <=? n0).
+Definition c_rnonpos : bool :=
+  forallbn (nS m) (fun s => forallbn (nA m) (fun a => negb (avail m s a) || (Rm m s a <=? n0))).
+(* states at which following the reported policy for one step may lose value *)
+Definition lossy (s : nat) : bool := negb (Vz s <=? Qpol m upolT Vz s).
+(* expected-number-of-lossy-steps certificate N for the reported policy *)
+Definition c_N (N : nat -> T) : bool :=
+  forallbn (nS m) (fun s =>
+    (n0 <=? N s) &&
+    ((if lossy s then n1 else n0) +
+       sumf (nA m) (fun a => upolT s a * sumf (nS m) (fun ns => Pm m s a ns * N ns))
+     <=? N s)).
+
+Definition c01_undisc_check (N : list T) : list bool := [c_nonpos; c_rnonpos; c_N (untab N)].
+
 Definition c01_check : list bool := [wfb; c_abs; c_mask; c_res; c_q; c_pol; c_init].
 
 (* ------------------------------------------------------------------ *)
